@@ -242,9 +242,7 @@ class Env:
             node["declared"] = True
         else:
             v = cast(typ, st["value"])
-            if v is None and node["dims"] is not None:
-                raise Unspecified("none for an array node")
-            check_dims(node, v)
+            check_dims(node, v)          # an array node may be defined as none
             node["value"] = v
             node["has_value"] = True
         self.nodes[path] = node
@@ -264,8 +262,6 @@ class Env:
         if unit is not None and node["type"] in ("bool", "str"):
             raise Unspecified("unit on a bool/str assignment")
         v = cast(node["type"], lit)
-        if v is None and node["dims"] is not None:
-            raise Unspecified("none for an array node")
         if v is None and unit is not None:
             # 'a = none cm': no value; the unit must still fit the node's
             self.need_unit(unit)
@@ -427,15 +423,13 @@ class Env:
             value, runit, rtype = copy.deepcopy(rnode["value"]), rnode["unit"], rnode["type"]
             if not rnode["has_value"] and rnode["value"] is None and rnode["declared"]:
                 raise Unspecified("injection of a declared node without value")
-        if st.get("slice"):
-            if value is None:
-                raise Unspecified("slice of a node without value")
+        if st.get("slice") and value is not None:
             try:
                 value = apply_slice(value, st["slice"])
             except (IndexError, TypeError):
                 raise Unspecified("slice does not fit the referenced value")
-        if value is None and (st.get("unit") is not None or st.get("dims")):
-            raise Unspecified("injection of none with a unit or into an array host")
+        if value is None and st.get("unit") is not None:
+            raise Unspecified("injection of none with a unit")
         unit = st.get("unit") if st.get("unit") is not None else runit
         self.need_unit(unit)      # e.g. a custom unit of the remote source, unknown here
         path = self.register(st["indent"], st["name"])
@@ -457,8 +451,6 @@ class Env:
             node = self.nodes[path]
             if node["constant"]:
                 raise Abort("assignment to a constant node", "C14", path)
-            if value is None and node["dims"] is not None:
-                raise Unspecified("none for an array node")
             if typ in ("int", "float"):
                 value = self.convert(value, unit, node["unit"], path)
                 if typ == "int" and not all_integral(value):
@@ -507,6 +499,8 @@ class Env:
                 made.append(path)
                 continue
             self.need_unit(rnode["unit"])    # a custom unit of the source, unknown here
+            if rnode["value"] is None and rnode["dims"] is not None:
+                raise Unspecified("import of an array node without value")
             node = copy.deepcopy(rnode)
             node["path"] = path
             node["modified"] = False
